@@ -12,7 +12,7 @@ package ocsp
 //@ func OCSPRevocationChecker.IsRevoked
 //@   props C02 C05 C14
 //@   requires ocspOK(c) && clientCertificate != nil && chainsNonNil(verifiedChains)
-//@   assigns ocsp.OCSPRevocationChecker.cache, X.cache2go, X.net, X.stream, E.uint8, fresh:E.string, fresh:E.*core.CertificateChainEntry, fresh:E.core.CertificateChain, fresh:E.core.CertificateChainEntry, M.http.Header
+//@   assigns ocsp.OCSPRevocationChecker.cache, X.cache2go, X.net, X.stream, X.spos, E.uint8, fresh:E.string, fresh:E.*core.CertificateChainEntry, fresh:E.core.CertificateChain, fresh:E.core.CertificateChainEntry, M.http.Header
 //@   ensures err == nil ==> ret != nil
 //@   ensures[C02] revoked_answer_is_reported: called(OCSPRevocationChecker.parseOcspResponse#1) && res(OCSPRevocationChecker.parseOcspResponse#1, 1) == nil ==> err == nil && ret.Revoked == (res(OCSPRevocationChecker.parseOcspResponse#1, 0).Status == ocsp.Revoked)
 //@   ensures[C02] cached_answer_is_returned: called(OCSPRevocationChecker.tryGetResponseFromCache#1) && res(OCSPRevocationChecker.tryGetResponseFromCache#1, 1) == nil ==> err == nil && ret == res(OCSPRevocationChecker.tryGetResponseFromCache#1, 0)
